@@ -596,10 +596,27 @@ class Rectangle(Shape):
                          radius=radius,
                          rotation=rotation,
                          **kwargs)
-        self._lower_coord = complex(min(first.real, second.real),
-                                    min(first.imag, second.imag))
-        self._upper_coord = complex(max(first.real, second.real),
-                                    max(first.imag, second.imag))
+        # The lower and upper coordinates (without rotation) are stored
+        # relative to the central position so that the rectangle follows
+        # any change of its position.
+        self._lower_offset = complex(min(first.real, second.real),
+                                     min(first.imag, second.imag)) - central_pos
+        self._upper_offset = complex(max(first.real, second.real),
+                                     max(first.imag, second.imag)) - central_pos
+
+    @property
+    def _lower_coord(self) -> complex:
+        """
+        Lower left coordinate of the rectangle (without rotation).
+        """
+        return self.pos + self._lower_offset
+
+    @property
+    def _upper_coord(self) -> complex:
+        """
+        Upper right coordinate of the rectangle (without rotation).
+        """
+        return self.pos + self._upper_offset
 
     def __repr__(self) -> str:  # pragma: no cover
         """
